@@ -1,3 +1,4 @@
+\* 57,841 distinct states (203,406 generated), 1-5 min.
 \* Liveness (C41): every admitted item eventually has a terminal result and a Stop with a long
 \* deadline eventually returns nil, under weak fairness of the pipeline's own steps, of the
 \* Appender / store answering and of effects finishing.  No state constraint, no VIEW: every
